@@ -10,7 +10,7 @@ From E57 Require Import Base.Prelude Model.Crc Model.Device Model.PagedReader Sp
   Spec.BitSpec Spec.FormatSpec Spec.FileSpec.
 From E57 Require Import Proofs.PageSpecLemmas Proofs.PagedReaderCache Proofs.PagedReaderProofs
   Proofs.ProgTransfer Proofs.ReaderProgSem Proofs.BlobProofs Proofs.QueueReaderProofs
-  Proofs.FileRtWriter Proofs.FileRtReader Proofs.SpecLayout.
+  Proofs.FileRtWriter Proofs.FileRtReader Proofs.SpecLayout Proofs.SpecReaderTail.
 From Coq Require Import ZArith Lia ZifyN ZifyNat ZifyBool.
 Ltac Zify.zify_post_hook ::= Z.div_mod_to_equations.
 Open Scope N_scope.
@@ -70,17 +70,17 @@ Hypothesis Hmod : len log mod 1020 = 0.
 Hypothesis Hsz : phys_of_log (len log) < 2 ^ 64.
 
 (** every entry of a layout whose encoding lies in the stream at a 4-aligned position is read
-    back from its start; a compressed vector has to be followed by at least one byte *)
+    back from its start (a compressed vector may be the very last thing of the stream:
+    [qr_decodes_any_layout_tail]) *)
 Lemma fsections_read_spec : forall fl base pre post x,
   base = len pre ->
   log = pre ++ encode_fsections base fl x ++ post -> base mod 4 = 0 ->
-  forallb fsection_ok fl = true -> pcs_followed fl (len x) (len post) = true ->
+  forallb fsection_ok fl = true ->
   Forall2 (reads_fsection_spec log) fl (layout_starts base fl (len x)).
 Proof.
-  induction fl as [|s r IH]; intros base pre post x Hbase Hlog Hal Hok Hfol;
+  induction fl as [|s r IH]; intros base pre post x Hbase Hlog Hal Hok;
     cbn [layout_starts]; [constructor|].
   cbn [forallb] in Hok. apply andb_prop in Hok as [Hs Hr].
-  cbn [pcs_followed] in Hfol. apply andb_prop in Hfol as [Hf Hfr].
   cbn [encode_fsections] in Hlog. rewrite <- app_assoc in Hlog.
   assert (HLlt : len log < 2 ^ 64)
     by (pose proof Hsz as Hsz'; unfold phys_of_log, PAYLOAD_SZ in Hsz'; lia).
@@ -97,16 +97,13 @@ Proof.
     + cbn [encode_fsection] in Hlog. rewrite <- app_assoc in Hlog.
       apply fsection_ok_pc in Hs as (_ & Hscene & Hlegal).
       intros fuel Hfuel.
-      apply (qr_decodes_any_layout proto points lay pre _ log fuel Hscene Hlegal Hlog Hal);
-        try assumption.
-      intros E. apply (f_equal len) in E.
-      rewrite !len_app, len_zeros, len_encode_fsections, len_nil in E. lia.
+      apply (qr_decodes_any_layout_tail proto points lay pre _ log fuel Hscene Hlegal Hlog Hal);
+        assumption.
   - apply (IH _ (pre ++ encode_fsection base s x) post x).
     + rewrite len_app, len_encode_fsection. subst base. reflexivity.
     + rewrite <- app_assoc. exact Hlog.
     + pose proof (fsec_len_mod4 s (len x) Hs). lia.
     + exact Hr.
-    + exact Hfr.
 Qed.
 
 End OnStream.
@@ -149,7 +146,6 @@ Theorem spec_file_read_by_model : forall (fl : file_layout) (x : list N),
   file_layout_ok fl = true ->
   x <> [] ->                                   (* an empty XML text at the very end of the last payload cannot be seeked to *)
   len x <= MAX_XML_SIZE ->                     (* the reader refuses longer XML texts (documented limit) *)
-  pcs_followed fl (len x) (spec_file_filler fl x) = true ->   (* see [spec_file_read_needs_pcs_followed] *)
   len (spec_encode_file fl x) < 2 ^ 64 ->      (* header fields and offsets are u64 *)
   let f := spec_encode_file fl x in
   let xo := phys_of_log (xml_start 48 fl (len x)) in
@@ -158,7 +154,7 @@ Theorem spec_file_read_by_model : forall (fl : file_layout) (x : list N),
     pr_inv 1024 f rs /\
     Forall2 (reads_fsection rs xo) fl (spec_layout_offsets fl (len x)).
 Proof.
-  intros fl x Hlok Hxne Hxl Hfol Hsize f xo.
+  intros fl x Hlok Hxne Hxl Hsize f xo.
   destruct (file_layout_ok_spec fl Hlok) as [Hok Hone].
   pose proof (spec_size_bound fl x Hsize) as Hsz.
   pose proof (spec_file_stream_mod fl x) as Hmod.
@@ -197,8 +193,7 @@ Proof.
     - reflexivity.
     - exact Hlog.
     - reflexivity.
-    - exact Hok.
-    - rewrite len_zeros. exact Hfol. }
+    - exact Hok. }
   assert (Hxs : Forall2 (fun s b => s = FXml -> b = XS) fl (layout_starts 48 fl (len x))).
   { apply layout_starts_xml. lia. }
   unfold spec_layout_offsets. apply Forall2_map_r.
@@ -211,19 +206,21 @@ Proof.
   - subst xo. rewrite (Hx eq_refl). reflexivity.
 Qed.
 
-(** * [pcs_followed] cannot be dropped
+(** * A section may end the file
 
-    A zero-record compressed vector that ends the file exactly at the end of the last payload:
-    every hypothesis but [pcs_followed] holds, and [raw_new] fails (its seek to the first packet,
-    the physical size of the file, is rejected). *)
-Example spec_file_read_needs_pcs_followed :
+    A zero-record compressed vector that ends the file exactly at the end of the last payload
+    (its data offset is the physical size of the file): the reader does not seek there, the
+    iteration yields no point.  (Before /repo 2adadd6 the seek was attempted and failed.) *)
+Example spec_file_read_vector_at_file_end :
   let fl := [FXml; FPc [TSingle] [] [] 0] in let x := repeat 32 940 in
   file_layout_ok fl = true /\ x <> [] /\ len x <= MAX_XML_SIZE /\
   len (spec_encode_file fl x) = 1024 /\
   pcs_followed fl (len x) (spec_file_filler fl x) = false /\
   spec_layout_offsets fl (len x) = [phys_of_log 48; phys_of_log (48 + 940)] /\
   match reader_open (dev_init (spec_encode_file fl x) None) with
-  | (_, Ok (rs, _, _)) => snd (rrun (raw_new (phys_of_log (48 + 940)) 0 [TSingle]) rs) = Err ERead
+  | (_, Ok (rs, _, _)) =>
+      snd (rrun (rbind (raw_new (phys_of_log (48 + 940)) 0 [TSingle])
+                       (fun it => raw_collect 1 (pr_log_size rs) it [])) rs) = Ok []
   | _ => False
   end.
 Proof.
@@ -267,7 +264,6 @@ Proof.
   - vm_compute; reflexivity.
   - discriminate.
   - vm_compute; discriminate.
-  - vm_compute; reflexivity.
   - rewrite Hlen. reflexivity.
   - rewrite Hlen in H.
     assert (Hxo : phys_of_log (xml_start 48 SpecReadInstance.fl (len SpecReadInstance.xml)) = 1096)
